@@ -18,6 +18,9 @@ fn main() {
         no_final: !faults,
         no_sweeps: std::env::var("WL_NO_SWEEPS").is_ok(),
         allow_arena_full: std::env::var("WL_ALLOW_ARENA_FULL").is_ok(),
+        // C10's crash stream: versioned histories (one write per key per transaction, no equal timestamps per key)
+        single_write_per_key: std::env::var("WL_C10").is_ok(),
+        no_ties: std::env::var("WL_C10").is_ok(),
         ..ExecOpts::default()
     };
     let rt = tokio::runtime::Builder::new_current_thread().enable_all().build().unwrap();
@@ -28,5 +31,6 @@ fn main() {
     let failed: Vec<(Vec<u8>, Option<(u32, u32)>)> = out.failed_writes.iter().map(|(k, op)| (k.clone(), op.value().map(|v| (v.len, v.tag)))).collect();
     let failed_commits: Vec<(usize, String, Vec<(Vec<u8>, Option<(u32, u32)>)>)> =
         out.failed_commits.iter().map(|(at, e, ws)| (*at, e.clone(), ws.iter().map(|(k, op)| (k.clone(), op.value().map(|v| (v.len, v.tag)))).collect())).collect();
-    println!("{}", serde_json::json!({"failure": f, "commits": commits, "failed_writes": failed, "failed_commits": failed_commits, "n_failed": out.stats.get("failed_commits")}));
+    let model_commits = if std::env::var("WL_C10").is_ok() { serde_json::to_value(&out.model.commits).unwrap_or_default() } else { serde_json::Value::Null };
+    println!("{}", serde_json::json!({"failure": f, "commits": commits, "model_commits": model_commits, "failed_writes": failed, "failed_commits": failed_commits, "n_failed": out.stats.get("failed_commits")}));
 }
